@@ -76,6 +76,12 @@ def run_one(slot_k, m, all_checks):
         res["error"] = why
         return res
     res["applied"] = True
+    # rsync restores files with their old mtimes, which cargo would take for "unchanged since
+    # the last build" and reuse a stale artifact of the previous mutation: touch everything
+    now = time.time()
+    for dp, _dn, fns in os.walk(repo):
+        for fnm in fns:
+            os.utime(os.path.join(dp, fnm), (now, now))
     env = dict(os.environ)
     env["CARGO_NET_OFFLINE"] = "true"
     env["CARGO_TARGET_DIR"] = os.path.join(slot, "target")
